@@ -92,7 +92,9 @@ QRotP(q, v) == QMulP(QMulP(QOf(q), QVec(v)), QConjP(QOf(q)))
 
 \* vector-valued polynomials, component i
 PC(x) == PConst(x)
-PLerp(a, b, t, i) == PAdd(PSub(PC(a[i]), PMul(PC(t), PC(a[i]))), PMul(PC(t), PC(b[i])))           \* a + t (b - a)
+\* a (1 - t) + b t: the two terms the documentation names; 1 - t is one exact factor, so for t near 1 the bound does not
+\* contain |a| (an evaluation as (a - t a) + t b loses accuracy there and is rejected)
+PLerp(a, b, t, i) == PAdd(PMul(PC(a[i]), PC(DySub(Dy1, t))), PMul(PC(t), PC(b[i])))
 PHalf == PC(Dy(Z1, -1))
 PMid(a, b, i) == PAdd(PMul(PHalf, PC(a[i])), PMul(PHalf, PC(b[i])))
 PTwo == PC(DyInt(2))
